@@ -5,6 +5,8 @@ Local Open Scope Z_scope.
 Definition search_factor : Z := 4.
 (* util.go readerContainsAny: halflen := bufflen / D *)
 Definition search_half_div : Z := 2.
+(* unionFile.go copyFile: 1 iff the parent directory is computed from filepath.Clean(name) *)
+Definition copyfile_cleans_name : Z := 0.
 (* path.go Walk: 1 iff a final filepath.SkipDir is converted into nil (as path/filepath.Walk does) *)
 Definition walk_skipdir_to_nil : Z := 1.
 (* sftpfs/sftp.go MkdirAll: 1 iff the fast path returns an error for an existing non-directory *)
